@@ -1,9 +1,26 @@
-(* C13 -- declared component dependencies always hold. Statements only.
+(* C13 -- declared component dependencies always hold.
    Model: Manager.extra_components / add_dependency / get_arch (entity_manager.cpp:26-31, 118-123, 141-160).
-   Specification: MgrSpec.closure, the least set containing the requested components and closed under the declarations. *)
+   Specification: MgrSpec.closure, the least set containing the requested components and closed under the declarations.
+
+   Entity level (second half of this file; proofs/DepsFrame.v, DepsClosure.v, DepsInv.v, DepsMain.v): the unlocked
+   refinement of C02 extended with declarations.  For ALL scripts over create / destroyNow / assign (typed or not,
+   default or value) / removeComponent / write through getComponent / addDependency (DepsMain.alpha_d), made while the
+   manager is not locked, for arbitrary component descriptions subject to cis_ok: Refine.refines_on = true
+   (C13_entity_level), pointwise per handle (C13_entity_level_pointwise), through has / getComponent<const T>
+   (C13_entity_level_observations), and: every live entity has every direct and transitive dependent of each of its
+   components (C13_live_entities_closed, C13_has_is_closed).
+   How it goes: the code's table and the specification's are EQUAL lists along every script (the code stores per master
+   the already closed set, MgrSpec.x_add_dep does the same, and whenever the code's fixpoint loop returns it returns
+   the specification's closure: DepsClosure.closure_eq); the structural primitives never read the table
+   (DepsFrame.v), so the state with the table erased satisfies the invariant of C02 and its lemmas are reused;
+   the component set of every live entity is closed under the table.
+   The hypothesis on declarations (DepsMain.decl_ok): each declaration leaves the component set of every LIVE entity
+   closed under the new table -- true when declarations precede the entities concerned (C13_declarations_first).
+   It is needed: a declaration does not re-close existing entities, the code re-closes them on their next structural
+   change of ANY component, the specification only on assignments (C13_late_declaration_diverges below). *)
 Require Import Coq.Lists.List Coq.NArith.NArith Coq.ZArith.ZArith Coq.micromega.Lia Coq.Bool.Bool.
 From Mustache Require Import Res Manager Palette MgrSpec Refine.
-From Mustache.proofs Require Import ClosureProofs.
+From Mustache.proofs Require Import ClosureProofs ManagerInv ManagerMain DepsClosure DepsInv DepsMain.
 Import ListNotations.
 
 (* for ANY dependency table (chains, diamonds, cycles): whenever the code's fixpoint loop returns, the requested set
@@ -64,3 +81,143 @@ Proof.
   split; vm_compute; reflexivity.
 Qed.
 Print Assumptions C13_pack_remove_then_assign_master_refuted.
+
+(* ================================================================================================================ *)
+(* entity level: the unlocked refinement with declarations                                                           *)
+
+(* THE statement of Refine.v for this alphabet: every entity that gains a master through create / assign has all direct
+   and transitive dependents, those it lacked with their default values; removing a dependent of a present master does
+   nothing; removing a master leaves the dependents; all other values follow their entity *)
+Theorem C13_entity_level : forall typed n cis ops s hs,
+  cis_ok cis -> forallb (alpha_d cis) ops = true -> decl_ok (x_init n cis) ops = true ->
+  mrun typed n cis ops = Ok (s, hs) -> x_viol (xrun n cis ops) = 0 -> (N.of_nat (length hs) < 16777000)%N ->
+  refines_on typed n cis ops = true.
+Proof. exact deps_refines_on. Qed.
+Print Assumptions C13_entity_level.
+
+Theorem C13_entity_level_pointwise : forall typed n cis ops s hs,
+  cis_ok cis -> forallb (alpha_d cis) ops = true -> decl_ok (x_init n cis) ops = true ->
+  mrun typed n cis ops = Ok (s, hs) -> x_viol (xrun n cis ops) = 0 -> (N.of_nat (length hs) < 16777000)%N ->
+  length hs = x_count (xrun n cis ops) /\
+  forall k,
+    match find_ent (xrun n cis ops) k with
+    | Some e => exists e', abs_ent s k (nth k hs null_handle) = Some e' /\ ent_match e e' = true
+    | None => abs_ent s k (nth k hs null_handle) = None
+    end.
+Proof. exact deps_refinement. Qed.
+Print Assumptions C13_entity_level_pointwise.
+
+Theorem C13_entity_level_observations : forall typed n cis ops s hs,
+  cis_ok cis -> forallb (alpha_d cis) ops = true -> decl_ok (x_init n cis) ops = true ->
+  mrun typed n cis ops = Ok (s, hs) -> x_viol (xrun n cis ops) = 0 -> (N.of_nat (length hs) < 16777000)%N ->
+  forall k c, c < MASK_BITS ->
+    step s (OHas (nth k hs null_handle) c) = Ok (s, RBool (spec_has (xrun n cis ops) k c)) /\
+    exists v, step s (OGetConst (nth k hs null_handle) c) = Ok (s, RCell (spec_has (xrun n cis ops) k c) v) /\
+              forall e w, find_ent (xrun n cis ops) k = Some e -> In (c, w) (e_comps e) -> cell_le w v = true.
+Proof. exact deps_observations. Qed.
+Print Assumptions C13_entity_level_observations.
+
+(* the table of the code is the table of the specification, and every live entity is closed under it *)
+Theorem C13_live_entities_closed : forall typed n cis ops s hs,
+  cis_ok cis -> forallb (alpha_d cis) ops = true -> decl_ok (x_init n cis) ops = true ->
+  mrun typed n cis ops = Ok (s, hs) -> x_viol (xrun n cis ops) = 0 -> (N.of_nat (length hs) < 16777000)%N ->
+  deps s = x_deps (xrun n cis ops) /\
+  forall k e, find_ent (xrun n cis ops) k = Some e ->
+  forall c dm, c < MASK_BITS -> dep_find (deps s) c = Some dm -> has_comp (e_comps e) c = true ->
+  forall c', mhas dm c' = true -> has_comp (e_comps e) c' = true.
+Proof. exact deps_entities_closed. Qed.
+Print Assumptions C13_live_entities_closed.
+
+(* the same through the model's own hasComponent: a handle that has a master has each of the master's dependents *)
+Theorem C13_has_is_closed : forall typed n cis ops s hs,
+  cis_ok cis -> forallb (alpha_d cis) ops = true -> decl_ok (x_init n cis) ops = true ->
+  mrun typed n cis ops = Ok (s, hs) -> x_viol (xrun n cis ops) = 0 -> (N.of_nat (length hs) < 16777000)%N ->
+  forall k c dm c', c < MASK_BITS -> c' < MASK_BITS -> dep_find (deps s) c = Some dm -> mhas dm c' = true ->
+    step s (OHas (nth k hs null_handle) c) = Ok (s, RBool true) ->
+    step s (OHas (nth k hs null_handle) c') = Ok (s, RBool true).
+Proof. exact deps_has_closed. Qed.
+Print Assumptions C13_has_is_closed.
+
+(* whenever the code's closure loop returns, it returns the specification's closure (well-formed tables: sorted by
+   master, ids and masks inside the 128 bits -- an invariant of every run, DepsInv.di_dwf) *)
+Theorem C13_code_closure_is_spec_closure : forall s m r,
+  dwf (deps s) -> extra_components s m = Ok r -> closure (deps s) m = munion m r.
+Proof. exact closure_eq. Qed.
+Print Assumptions C13_code_closure_is_spec_closure.
+
+(* the hypothesis on declarations holds for free when all declarations come first *)
+Theorem C13_declarations_first : forall n cis ds rest,
+  forallb is_dep ds = true -> forallb (fun o => negb (is_dep o)) rest = true -> decl_ok (x_init n cis) (ds ++ rest) = true.
+Proof. intros n cis ds rest. apply decl_ok_decls_first. reflexivity. Qed.
+Print Assumptions C13_declarations_first.
+
+(* ---- the hypotheses are satisfiable ---- *)
+Definition cis6 : list cinfo := [pal_info 0 0; pal_info 1 0; pal_info 2 0; pal_info 3 0; dyn_info 8 33; pal_info 6 0].
+Lemma cis6_ok : cis_ok cis6.
+Proof. unfold cis_ok, cis6. repeat constructor; simpl; intros; congruence. Qed.
+
+(* a chain 0 -> 1 -> 2 declared in forward order (so 0's entry is widened by the second declaration only through the
+   closure at use), a cycle 3 <-> 4, a diamond 5 -> {1, 3}; creation, assignment (default, value, typed and not) of
+   masters, removal of dependents (no effect) and of masters, destroyNow with swap-remove, id reuse, a redeclaration
+   and a late declaration for a master nobody holds *)
+Definition script_entity : list xop :=
+  [XoDep 0 2; XoDep 1 4; XoDep 3 16; XoDep 4 8; XoDep 5 10;
+   XoCreate 0 1 [] false; XoCreate 0 4 [] true; XoCreate 0 8 [] false; XoCreate 0 0 [] false;
+   XoSet 0 1 41%Z; XoSet 2 4 43%Z;
+   XoAssign 0 3 5 None; XoAssign 0 1 0 None; XoRemove 0 0 1 true; XoRemove 0 0 2 false; XoRemove 0 2 4 true;
+   XoRemove 0 0 0 true; XoRemove 0 0 1 true; XoDestroyNow 0 1; XoCreate 0 32 [] false; XoRemove 0 4 5 false;
+   XoDep 0 8; XoAssign 0 0 0 (Some 9%Z); XoRemove 0 3 3 true; XoRemove 0 3 5 true; XoRemove 0 3 3 true; XoSet 3 4 44%Z]%N.
+
+Example C13_entity_level_nonvacuous :
+  cis_ok cis6 /\ forallb (alpha_d cis6) script_entity = true /\ decl_ok (x_init 1 cis6) script_entity = true /\
+  x_viol (xrun 1 cis6 script_entity) = 0 /\
+  (forall typed, exists s hs, mrun typed 1 cis6 script_entity = Ok (s, hs) /\ (N.of_nat (length hs) < 16777000)%N /\
+                              map (is_valid s) hs = [true; false; true; true; true]) /\
+  map (fun e => (e_k e, map fst (e_comps e))) (x_ents (xrun 1 cis6 script_entity)) =
+    [(2, [3; 4]); (4, [1; 2; 3; 4]); (0, [0; 1; 2; 3; 4]); (3, [1; 2; 3; 4])].
+Proof.
+  split; [exact cis6_ok|]. split; [vm_compute; reflexivity|]. split; [vm_compute; reflexivity|]. split; [vm_compute; reflexivity|]. split.
+  - intros typed. destruct typed; eexists; eexists; (split; [vm_compute; reflexivity|]); split; vm_compute; reflexivity.
+  - vm_compute. reflexivity.
+Qed.
+
+(* the hypotheses of the other statements of this section on the same script *)
+Definition state_entity : mst := match mrun true 1 cis6 script_entity with Ok (s, _) => s | Err _ => init 1 cis6 end.
+Definition handles_entity : list handle := match mrun true 1 cis6 script_entity with Ok (_, hs) => hs | Err _ => [] end.
+
+Example C13_has_is_closed_nonvacuous :
+  (* entity 0 has the master 0, whose stored set contains 1, 3 and 4 (the redeclaration was merged with the first one) *)
+  exists dm, dep_find (deps state_entity) 0 = Some dm /\ mhas dm 1 = true /\ mhas dm 3 = true /\ mhas dm 4 = true /\
+             step state_entity (OHas (nth 0 handles_entity null_handle) 0) = Ok (state_entity, RBool true) /\
+             step state_entity (OHas (nth 0 handles_entity null_handle) 4) = Ok (state_entity, RBool true).
+Proof. eexists. split; [vm_compute; reflexivity|]. repeat split; vm_compute; reflexivity. Qed.
+
+Example C13_code_closure_nonvacuous :
+  dwf (deps state_entity) /\ extra_components state_entity 32%N = Ok 30%N /\ closure (deps state_entity) 32%N = 62%N.
+Proof.
+  split; [|split; vm_compute; reflexivity]. unfold dwf. split.
+  - vm_compute. repeat constructor.
+  - assert (E : deps state_entity = [(0, 26%N); (1, 4%N); (3, 16%N); (4, 24%N); (5, 30%N)]) by (vm_compute; reflexivity).
+    rewrite E. repeat (constructor; [split; [simpl; unfold MASK_BITS; repeat constructor|apply lowmb_ok; reflexivity]|]). constructor.
+Qed.
+
+Example C13_declarations_first_nonvacuous :
+  exists ds rest, script_deps = ds ++ rest /\ forallb is_dep ds = true /\ forallb (fun o => negb (is_dep o)) rest = true /\
+                  decl_ok (x_init 16 cis4) script_deps = true.
+Proof.
+  exists (firstn 3 script_deps), (skipn 3 script_deps). split; [reflexivity|]. split; [reflexivity|]. split; [reflexivity|].
+  vm_compute. reflexivity.
+Qed.
+
+(* ---- why the hypothesis on declarations is needed ---- *)
+(* entity {0,1}; then "1 requires 2" is declared; removing 0 makes the code look up the archetype of the closure of {1},
+   i.e. {1,2}: the entity silently gains 2.  The specification (and the documentation: "every entity that SUBSEQUENTLY
+   gains the master") leaves it with {1}.  Likewise removing a dependent of a late-declared master is not a no-op in the
+   code when the master's other dependents are missing.  An assignment re-closes on both sides. *)
+Example C13_late_declaration_diverges :
+  refines_on true 1 cis4 [XoCreate 0 3 [] false; XoDep 1 4; XoRemove 0 0 0 true]%N = false /\
+  x_viol (xrun 1 cis4 [XoCreate 0 3 [] false; XoDep 1 4; XoRemove 0 0 0 true]%N) = 0 /\
+  decl_ok (x_init 1 cis4) [XoCreate 0 3 [] false; XoDep 1 4; XoRemove 0 0 0 true]%N = false /\
+  refines_on true 1 cis4 [XoCreate 0 3 [] false; XoDep 0 6; XoRemove 0 0 1 true]%N = false /\
+  refines_on true 1 cis4 [XoCreate 0 3 [] false; XoDep 0 6; XoAssign 0 0 3 None]%N = true.
+Proof. vm_compute. repeat split. Qed.
